@@ -163,7 +163,29 @@ class HSet:
     self.items, self.mem = items, mem
 
   def clone(self):
-    return HSet(None if self.items is None else set(self.items), self.mem)
+    return HSet(None if self.items is None else dict(self.items), self.mem)
+
+
+class HRecList:
+  """Repeated message field as struct-of-arrays: fields {name: type}, reps {name: array rep}, symbolic length.
+  Elements are addressed by ElemRef(ptr, index); append copies a record's fields (protobuf semantics)."""
+
+  def __init__(self, cls, fields, reps, length):
+    self.cls, self.fields, self.reps, self.length = cls, fields, reps, length
+
+  def clone(self):
+    return HRecList(self.cls, self.fields, dict(self.reps), self.length)
+
+
+class ElemRef:
+  """Reference to element `idx` of the HRecList at `ptr` (a protobuf sub-message inside a repeated field)."""
+  __slots__ = ("ptr", "idx")
+
+  def __init__(self, ptr, idx):
+    self.ptr, self.idx = ptr, idx
+
+  def __repr__(self):
+    return f"ElemRef({self.ptr}, {self.idx})"
 
 
 # ----------------------------------------------------------------------------------------------------------------
@@ -183,6 +205,10 @@ def parse_type(s):
     return "real"
   if s.startswith("ref:"):
     return ("ref", s[4:])
+  if s.startswith("rec:"):
+    return ("rec", s[4:], None)
+  if s.startswith("elem:"):
+    return ("elem", s[5:])
   if low == "point":
     return ("tuple", (("opt", "int"), ("opt", "int")))
   if low == "jpoint":
@@ -372,7 +398,7 @@ def default_of(t):
   if t == "none":
     return None
   if t == "str":
-    return StrV(z3.Const("str!default", StrSort))
+    return StrV(z3.Const("str_default", StrSort))
   if t == "bytes":
     return BytesV(0, 0)
   if t[0] == "opt":
@@ -380,7 +406,7 @@ def default_of(t):
   if t[0] == "tuple":
     return tuple(default_of(ti) for ti in t[1])
   if t[0] == "ref":
-    return Ref(z3.Const("ref!default!" + t[1], RefSort), t[1])
+    return Ref(z3.Const("ref_default_" + t[1], RefSort), t[1])
   raise TypeError(t)
 
 
@@ -424,6 +450,8 @@ def type_of(v):
     return ("ref", v.cls)
   if isinstance(v, Opaque):
     return "opaque"
+  if isinstance(v, ElemRef):
+    return ("elem", v.ptr)
   raise TypeError(f"type_of: {v!r}")
 
 
